@@ -271,6 +271,16 @@ func SetLaneAddr(s *State, sh *Shape, p, l int, poison bool) {
 	}
 }
 
+// SetLaneAddrTo points lane l's FLAT address operand at the virtual address a.
+func SetLaneAddrTo(s *State, sh *Shape, l int, a uint64) {
+	if sh.Addr64 {
+		putV(s, l, RegAddr, uint32(a))
+		putV(s, l, RegAddr+1, uint32(a>>32))
+		return
+	}
+	putV(s, l, RegAddr, uint32(a-MemBase))
+}
+
 // Build fills s with the input state for (shape, pattern, exec). With poison,
 // lanes whose EXEC bit is clear get faulting addresses.
 func Build(s *State, sh *Shape, p int, exec uint64, poison bool) {
